@@ -25,6 +25,13 @@
 (*      alone and as holes / islands (Z, ZH), one vertex repeated (D: not   *)
 (*      valid but epsilon-valid, see EpsValidWithDups), arbitrary finite    *)
 (*      contours (X: only termination and index validity are demanded).     *)
+(*  (a') PLACEMENT.  "At any scale and epsilon": every valid set is also     *)
+(*      presented at similarity placements s * p + t in real units (scale    *)
+(*      1e-3 .. 1e3, offset up to 3e6 along x, y or both) with the SAME       *)
+(*      expected numbers; AdmissibleClasses keeps the placements under which  *)
+(*      the set stays epsilon-valid with margin for the default epsilon.      *)
+(*      PlaceNumbers / PlaceValid: the oracle's numbers, validity and nesting *)
+(*      are invariant under (integer) similarities.                           *)
 (*  (b) OUTPUT side.  ValidTriangulation(polys, tris) is the statement of   *)
 (*      C10 clause by clause.  TLC checks on every enumerated polygon set   *)
 (*      that the generator and the independent full predicate agree         *)
@@ -121,6 +128,77 @@ NumHoles(polys) == Cardinality({ k \in 1..Len(polys) : Area2(polys[k]) < 0 })
 SetArea2(polys) == SumSeq([k \in 1..Len(polys) |-> Area2(polys[k])])
 (* "exactly V-2+2h-2(o-1) triangles" *)
 ExpectedTris(polys) == NumVerts(polys) - 2 + 2 * NumHoles(polys) - 2 * (NumOuter(polys) - 1)
+
+(* ------------------------------------------------------------------------ *)
+(* (a') placement and scale ("... at any scale and epsilon")                  *)
+(* A lattice set ps is also presented to the library as  s * ps + t  for the  *)
+(* similarity placements below: s = sn/sd, t = T * d (REAL units, not lattice *)
+(* units: the coordinates are neither powers of two nor exactly               *)
+(* representable; each is the correctly rounded value of an exact rational).  *)
+(* Everything the property demands of the result - V-2+2h-2(o-1) triangles    *)
+(* over the input indices, each CCW, area sum, edge pairing - is invariant    *)
+(* under an orientation preserving similarity, so the expected numbers of a   *)
+(* Case do not depend on the placement (PlaceNumbers / PlaceValid check that  *)
+(* on integer similarities).  A placement is only used for ps when the placed *)
+(* set is epsilon-valid with a comfortable margin for the library's default   *)
+(* epsilon = 1e-12 * (largest |coordinate|) (polygon.cpp: epsilon_ =          *)
+(* bBox_.Scale() * kPrecision):                                               *)
+(*   feature size (least distance between a vertex and an edge it is not an   *)
+(*   end of; >= 1/q lattice units, q = FeatInv)          >= 1000 * epsilon,   *)
+(*   height of any clockwise triangle of lattice points (>= 1/(W+H) units)    *)
+(*                                                         >= 10 * epsilon,   *)
+(* so that "CCW within epsilon" stays exactly "lattice cross product >= 0",   *)
+(* and the rounding of the coordinates (<= 1.2e-4 * epsilon) is more than six *)
+(* orders of magnitude below the feature size.                                *)
+(* ------------------------------------------------------------------------ *)
+PScales == { <<1, 1000>>, <<1, 100>>, <<1, 1>>, <<1000, 1>> }       \* sn/sd
+POffsets == { 0, 1000, 100000, 3000000 }                            \* T
+PDirs == { <<1, 0>>, <<0, 1>>, <<1, 1>>, <<-1, 1>> }                \* t = T * d  (x, y, both, both with mixed signs)
+(* admissibility depends on the class <<sn, sd, T>> only; <<1,1,0>> is the lattice set itself *)
+PClasses(u) == { <<s[1], s[2], t>> : s \in PScales, t \in POffsets } \ { <<1, 1, 0>> }
+Placements(u) == { <<c[1], c[2], c[3] * d[1], c[3] * d[2]>> : c \in PClasses(u), d \in PDirs }
+
+AbsI(x) == IF x < 0 THEN -x ELSE x
+CeilDiv(x, y) == (x + y - 1) \div y
+MaxOf(S) == CHOOSE x \in S : \A y \in S : y <= x
+MinOf(S) == CHOOSE x \in S : \A y \in S : x <= y
+Len2(a, b) == (b[1] - a[1]) * (b[1] - a[1]) + (b[2] - a[2]) * (b[2] - a[2])
+(* 1 / (squared distance of p from the closed segment ab), rounded up; p is a   *)
+(* lattice point that is not on ab: beyond an end of ab the distance is at least *)
+(* 1, above ab it is |Orient| / |ab|                                             *)
+InvDist2(a, b, p) ==
+  IF DotAt(p, a, b) <= 0 \/ DotAt(p, b, a) <= 0 THEN 1
+  ELSE IF Orient(a, b, p) = 0 THEN 1000000       \* p on ab: no valid set
+  ELSE CeilDiv(Len2(a, b), Orient(a, b, p) * Orient(a, b, p))
+PointsOf(ps) == UNION { { XY(ps[k][i]) : i \in 1..Len(ps[k]) } : k \in 1..Len(ps) }
+EdgesOf(ps) == UNION { { <<XY(ps[k][i]), XY(ps[k][Nx(i, Len(ps[k]))])>> : i \in 1..Len(ps[k]) } : k \in 1..Len(ps) }
+(* feature size >= 1 / sqrt(FeatInv2) >= 1 / FeatInv lattice units *)
+FeatInv2(ps) ==
+  LET V == PointsOf(ps) IN
+  MaxOf({1} \cup UNION { { InvDist2(e[1], e[2], p) : p \in V \ { e[1], e[2] } } : e \in EdgesOf(ps) })
+FeatInv(ps) == LET f == FeatInv2(ps) IN CHOOSE q \in 1..1000 : q * q >= f /\ (q - 1) * (q - 1) < f
+MaxAbs(ps) == MaxOf({ AbsI(p[1]) : p \in PointsOf(ps) } \cup { AbsI(p[2]) : p \in PointsOf(ps) })
+SpanWH(ps) == LET xs == { p[1] : p \in PointsOf(ps) }  ys == { p[2] : p \in PointsOf(ps) }
+              IN (MaxOf(xs) - MinOf(xs)) + (MaxOf(ys) - MinOf(ys))
+(* class c = <<sn, sd, T>> for a set with feature bound q, largest |coordinate| m, *)
+(* width + height wh.  All quantities in units of 1e-3 / sd (T is a multiple of    *)
+(* 1000) so that they stay below 2^31:  X >= 1e-3 * sd * (largest placed           *)
+(* |coordinate|), i.e.  epsilon <= 1e-9 * X / sd ; feature >= sn / (sd * q).       *)
+ClassOK(c, q, m, wh) ==
+  LET X == (c[3] \div 1000) * c[2] + CeilDiv(c[1] * m, 1000) IN
+  /\ q * X <= c[1] * 1000000                      \* feature >= 1000 * epsilon
+  /\ CeilDiv(wh * X, 100) <= c[1] * 1000000       \* 1/(W+H) lattice units >= 10 * epsilon
+AdmissibleClasses(ps) ==
+  LET q == FeatInv(ps)  m == MaxAbs(ps)  wh == SpanWH(ps) IN
+  { c \in PClasses(0) : ClassOK(c, q, m, wh) }
+(* pl = <<sn, sd, tx, ty>> *)
+PlaceOK(pl, ps) ==
+  /\ pl \in Placements(0)
+  /\ <<pl[1], pl[2], Max(AbsI(pl[3]), AbsI(pl[4]))>> \in AdmissibleClasses(ps)
+(* the image of ps under the integer similarity p -> k * p + <<dx, dy>> *)
+(* (<<>> \o f makes TLC build the tuple once instead of re-evaluating the lazy function at every application) *)
+Image(ps, k, dx, dy) == <<>> \o [c \in 1..Len(ps) |-> <<>> \o [i \in 1..Len(ps[c]) |-> <<k * ps[c][i][1] + dx, k * ps[c][i][2] + dy>>]]
+Undupped(ps) == IF Family \in {"D", "X", "T"} THEN <<>> \o [k \in 1..Len(ps) |-> UndupFrom(ps[k], 1)] ELSE ps
 
 (* ------------------------------------------------------------------------ *)
 (* (b) the output side: the statement of C10                                 *)
@@ -388,7 +466,10 @@ Case(ps) ==
   [fam |-> Family, polys |-> ip, valid |-> (Family # "X" \/ InputOK(ps)),
    dup |-> NumVerts(ps) - NumVerts(UndupSet(ps)),
    V |-> NumVerts(ps), h |-> NumHoles(ps), o |-> NumOuter(ps),
-   ntri |-> ExpectedTris(ps), area2 |-> SetArea2(ps)]
+   ntri |-> ExpectedTris(ps), area2 |-> SetArea2(ps),
+   \* the placement classes <<sn, sd, T>> under which this set is presented as well (same expected numbers;
+   \* arbitrary finite input must terminate with valid indices wherever it lies)
+   place |-> IF Family # "X" \/ InputOK(ps) THEN AdmissibleClasses(Undupped(ps)) ELSE PClasses(0)]
 
 Init ==
   /\ done = FALSE
@@ -463,4 +544,28 @@ MutantsRejected ==
        /\ ~ValidTriangulation(ip, dropped)
        /\ ~ValidTriangulation(ip, doubled)
        /\ ~ValidTriangulation(ip, outidx)
+(* placement: the numbers the oracle is made of do not depend on the placement *)
+(* (checked on integer similarities k * p + t), scaling alone is admissible for  *)
+(* every valid set, and admissibility is monotone in the distance from the origin *)
+Sims == { <<3, -7, 11>>, <<1, 40, 40>> }
+PlaceNumbers ==
+  (done /\ (Family # "X" \/ InputOK(polys))) =>
+    LET U == Undupped(polys)  A == AdmissibleClasses(U)  q == FeatInv(U) IN
+    /\ \A m \in Sims :
+         LET im == Image(U, m[1], m[2], m[3]) IN
+         /\ NumVerts(im) = NumVerts(U) /\ NumHoles(im) = NumHoles(U) /\ NumOuter(im) = NumOuter(U)
+         /\ ExpectedTris(im) = ExpectedTris(U)
+         /\ SetArea2(im) = m[1] * m[1] * SetArea2(U)
+         /\ SpanWH(im) = m[1] * SpanWH(U)
+         /\ (m[1] = 1 => FeatInv2(im) = FeatInv2(U))
+    /\ \A s \in PScales : s # <<1, 1>> => <<s[1], s[2], 0>> \in A
+    /\ \A c \in A : \A t \in POffsets : t < c[3] => (<<c[1], c[2], t>> \in A \/ <<c[1], c[2], t>> = <<1, 1, 0>>)
+    /\ \A c \in A : q * (c[3] \div 1000) * c[2] <= c[1] * 1000000
+(* ... and the image of a valid set is a valid set with the same nesting *)
+PlaceValid ==
+  (done /\ (Family # "X" \/ InputOK(polys))) =>
+    LET U == Undupped(polys) IN
+    \A m \in { <<3, -7, 11>> } : LET im == Image(U, m[1], m[2], m[3]) IN
+       /\ EpsValidSet(im)
+       /\ \A k \in 1..Len(U) : Depth(im, k) = Depth(U, k)
 =============================================================================
